@@ -38,6 +38,18 @@ Qed.
 Lemma sp_seq_snoc a k : seq a (S k) = seq a k ++ [a + k].
 Proof. rewrite <- Nat.add_1_r. rewrite seq_app. reflexivity. Qed.
 
+Lemma sp_firstn_seq a v L : v <= L -> firstn v (seq a L) = seq a v.
+Proof.
+  intros H. replace L with (v + (L - v)) by lia. rewrite seq_app.
+  rewrite <- (seq_length v a) at 1. apply firstn_app_len.
+Qed.
+
+Lemma sp_skipn_seq a v L : v <= L -> skipn v (seq a L) = seq (a + v) (L - v).
+Proof.
+  intros H. replace L with (v + (L - v)) at 1 by lia. rewrite seq_app.
+  rewrite <- (seq_length v a) at 1. apply skipn_app_len.
+Qed.
+
 Lemma sp_replace_first_notin x y l : ~ In x l -> replace_first x y l = l.
 Proof.
   induction l as [|z t IH]; cbn; [reflexivity|]. intros H.
@@ -500,4 +512,293 @@ Proof.
   rewrite Eol in E1. rewrite Eil in E2. injection E1 as <-. injection E2 as <-.
   exists s1, nd, t, ol, il, on2, in2, l2, (sp_bd s kind m rbond (permute 0 ol (axes t)) (permute 0 il (axes t))).
   split; [reflexivity|split; [reflexivity|exact Hinv]].
+Qed.
+
+(* ---- node-level computations ------------------------------------------------------------------------------ *)
+(* moving the next legs (in order) to the children does not change the permutation *)
+Lemma sp_olc_next n d n' : node_wf n -> open_legs_to_children n d = Some n' ->
+  map snd d = seq (nvirt n) (length d) ->
+  parent n' = parent n /\ shape n' = shape n /\ children n' = children n ++ map fst d /\ perm n' = perm n /\
+  nvirt n + length d <= nlegs n.
+Proof.
+  intros Hwf H Hs. assert (Hnd : NoDup (map snd d)) by (rewrite Hs; apply seq_NoDup).
+  destruct (open_legs_to_children_spec n d n' Hwf Hnd H) as (S1 & S2 & S3 & S4 & S5).
+  assert (Hb : nvirt n + length d <= nlegs n).
+  { destruct (length d) as [|k] eqn:Ek; [destruct Hwf; lia|].
+    assert (Hin : In (nvirt n + k) (map snd d)) by (rewrite Hs; apply in_seq; lia).
+    apply in_map_iff in Hin. destruct Hin as (cl & E & Hcl). apply S5 in Hcl. lia. }
+  repeat split; auto. rewrite S4.
+  assert (HndP : NoDup (perm n)).
+  { destruct Hwf as [Hp _]. apply (Permutation_NoDup (Permutation_sym Hp)). apply seq_NoDup. }
+  assert (Hvals : map (fun cl : id * nat => nth (snd cl) (perm n) 0) d = firstn (length d) (skipn (nvirt n) (perm n))).
+  { rewrite <- (map_map snd (fun i => nth i (perm n) 0)). rewrite Hs. apply map_nth_seq. exact Hb. }
+  rewrite Hvals. rewrite sp_filter_firstn.
+  - rewrite firstn_skipn. apply firstn_skipn.
+  - rewrite <- (firstn_skipn (nvirt n) (perm n)) in HndP. apply NoDup_app_iff in HndP. tauto.
+Qed.
+
+(* the last raw leg becomes the first child, followed by the next legs in order *)
+Lemma sp_olc_last n d n' M k : node_wf n -> open_legs_to_children n d = Some n' ->
+  perm n = seq 0 (S M) -> map snd d = M :: seq (nvirt n) k -> nvirt n + k <= M ->
+  parent n' = parent n /\ shape n' = shape n /\ children n' = children n ++ map fst d /\
+  perm n' = seq 0 (nvirt n) ++ M :: seq (nvirt n) (M - nvirt n).
+Proof.
+  intros Hwf H HP Hs Hb. set (v := nvirt n) in *.
+  assert (Hnd : NoDup (map snd d)).
+  { rewrite Hs. constructor; [rewrite in_seq; lia|apply seq_NoDup]. }
+  destruct (open_legs_to_children_spec n d n' Hwf Hnd H) as (S1 & S2 & S3 & S4 & S5).
+  repeat split; auto. rewrite S4. fold v. rewrite HP.
+  assert (Hvals : map (fun cl : id * nat => nth (snd cl) (seq 0 (S M)) 0) d = M :: seq v k).
+  { rewrite <- (map_map snd (fun i => nth i (seq 0 (S M)) 0)). rewrite Hs. apply sp_seq_nth_map.
+    intros i [<-|Hi]; [lia|]. apply in_seq in Hi. lia. }
+  rewrite Hvals. rewrite sp_firstn_seq, sp_skipn_seq by lia. f_equal. cbn [app]. f_equal.
+  replace (S M - v) with (k + ((M - v - k) + 1)) by lia. rewrite !seq_app, !filter_app.
+  rewrite (filter_seq_in (M :: seq v k)) by (intros x Hx; right; apply in_seq; lia).
+  rewrite (filter_seq_out (M :: seq v k)) by (intros x Hx [Hi|Hi]; [lia|apply in_seq in Hi; lia]).
+  cbn [seq filter]. replace (0 + v + k + (M - v - k)) with M by lia.
+  cbn [memb existsb]. rewrite Nat.eqb_refl. cbn [orb negb app]. rewrite app_nil_r.
+  assert (E : M - v = k + (M - v - k)) by lia. rewrite E at 2. rewrite seq_app. reflexivity.
+Qed.
+
+(* open_leg_to_parent on a fresh node *)
+Lemma sp_oltp_new shp p leg n' : open_leg_to_parent (new_node shp) p leg = Some n' ->
+  leg < length shp /\ exists q, move leg 0 (seq 0 (length shp)) = Some q /\
+  n' = {| parent := Some p; children := []; perm := q; shape := shp |}.
+Proof.
+  unfold open_leg_to_parent. cbn [is_root new_node parent negb children perm shape].
+  destruct (open_leg_ok (new_node shp) leg) eqn:Hok; cbn [negb]; [|discriminate].
+  apply open_leg_ok_spec in Hok. unfold nlegs in Hok. cbn in Hok. rewrite seq_length in Hok.
+  destruct (move leg 0 (seq 0 (length shp))) as [q|]; [|discriminate]. intros [= <-].
+  split; [lia|]. exists q. split; reflexivity.
+Qed.
+
+Lemma sp_move_0 L : 1 <= L -> move 0 0 (seq 0 L) = Some (seq 0 L).
+Proof. destruct L as [|L]; [lia|]. reflexivity. Qed.
+
+Lemma sp_move_1 L : 2 <= L -> move 1 0 (seq 0 L) = Some (1 :: 0 :: seq 2 (L - 2)).
+Proof. destruct L as [|[|L]]; [lia|lia|]. intros _. cbn. rewrite Nat.sub_0_r. reflexivity. Qed.
+
+Lemma sp_move_last M : move M 0 (seq 0 (S M)) = Some (M :: seq 0 M).
+Proof.
+  unfold move. rewrite sp_seq_snoc. cbn [Nat.add].
+  pose proof (pop_app (seq 0 M) M []) as Hp. rewrite seq_length in Hp. rewrite Hp. rewrite app_nil_r. reflexivity.
+Qed.
+
+Lemma sp_new_node_wf_with p q shp : Permutation q (seq 0 (length shp)) -> 1 <= length shp ->
+  node_wf {| parent := Some p; children := []; perm := q; shape := shp |}.
+Proof.
+  intros Hq HL. split; [exact Hq|]. unfold nvirt, nparents, nlegs. cbn.
+  apply Permutation_length in Hq. rewrite seq_length in Hq. lia.
+Qed.
+
+(* --- the final in node ---------------------------------------------------------------------------------- *)
+(* in is the root *)
+Lemma sp_in_node_root i shp oid in1 in2 :
+  ls_root i = true -> ls_parent i = None ->
+  sp_in1 i (new_node shp) oid = Some in1 -> open_legs_to_children in1 (sp_in_children i oid) = Some in2 ->
+  parent in2 = None /\ children in2 = oid :: ls_children i /\ perm in2 = seq 0 (length shp) /\ shape in2 = shp /\
+  S (length (ls_children i)) <= length shp.
+Proof.
+  intros Hr Hp. unfold sp_in1, sp_in_children. rewrite Hr, Hp. intros [= <-] H.
+  destruct (sp_olc_next _ _ _ (new_node_wf shp) H) as (S1 & S2 & S3 & S4 & S5).
+  - cbn. rewrite enum_from_snd, enum_from_length. reflexivity.
+  - cbn in S3. rewrite enum_from_fst in S3. rewrite app_length, enum_from_length in S5.
+    unfold nlegs in S5. cbn in S5. rewrite seq_length in S5. repeat split; auto.
+Qed.
+
+(* in has the old parent *)
+Lemma sp_in_node_parent i ip shp oid in1 in2 :
+  ls_root i = false -> ls_parent i = Some ip ->
+  sp_in1 i (new_node shp) oid = Some in1 -> open_legs_to_children in1 (sp_in_children i oid) = Some in2 ->
+  parent in2 = Some ip /\ children in2 = oid :: ls_children i /\ perm in2 = 1 :: 0 :: seq 2 (length shp - 2) /\ shape in2 = shp /\
+  2 + length (ls_children i) <= length shp.
+Proof.
+  intros Hr Hp. unfold sp_in1, sp_in_children. rewrite Hr, Hp. intros H1 H.
+  destruct (sp_oltp_new _ _ _ _ H1) as (HL & q & Hm & ->). rewrite sp_move_1 in Hm by lia. injection Hm as <-.
+  assert (Hwf : node_wf {| parent := Some ip; children := []; perm := 1 :: 0 :: seq 2 (length shp - 2); shape := shp |}).
+  { apply sp_new_node_wf_with; [|lia]. destruct (length shp) as [|[|L]]; [lia|lia|]. cbn. rewrite Nat.sub_0_r. apply perm_swap. }
+  destruct (sp_olc_next _ _ _ Hwf H) as (S1 & S2 & S3 & S4 & S5).
+  - cbn. rewrite enum_from_snd, enum_from_length. reflexivity.
+  - cbn in S3. rewrite enum_from_fst in S3. rewrite app_length, enum_from_length in S5.
+    unfold nlegs, nvirt, nparents in S5. cbn in S5. rewrite seq_length in S5. repeat split; auto. lia.
+Qed.
+
+(* in is below out *)
+Lemma sp_in_node_below i shp oid in1 in2 :
+  ls_root i = false -> ls_parent i = None ->
+  sp_in1 i (new_node shp) oid = Some in1 -> open_legs_to_children in1 (sp_in_children i oid) = Some in2 ->
+  parent in2 = Some oid /\ children in2 = ls_children i /\ perm in2 = seq 0 (length shp) /\ shape in2 = shp /\
+  1 + length (ls_children i) <= length shp.
+Proof.
+  intros Hr Hp. unfold sp_in1, sp_in_children. rewrite Hr, Hp. intros H1 H.
+  destruct (sp_oltp_new _ _ _ _ H1) as (HL & q & Hm & ->). rewrite sp_move_0 in Hm by lia. injection Hm as <-.
+  assert (Hwf : node_wf {| parent := Some oid; children := []; perm := seq 0 (length shp); shape := shp |}).
+  { apply sp_new_node_wf_with; [reflexivity|lia]. }
+  destruct (sp_olc_next _ _ _ Hwf H) as (S1 & S2 & S3 & S4 & S5).
+  - cbn. rewrite enum_from_snd, enum_from_length. reflexivity.
+  - cbn in S3. rewrite enum_from_fst in S3. rewrite app_length, enum_from_length in S5.
+    unfold nlegs, nvirt, nparents in S5. cbn in S5. rewrite seq_length in S5. repeat split; auto.
+Qed.
+
+(* --- the final out node --------------------------------------------------------------------------------- *)
+(* out is below in *)
+Lemma sp_out_node_below o i shp iid on1 on2 M :
+  length shp = S M -> sp_in_above i = true -> ls_root o = false -> ls_parent o = None ->
+  sp_out1 o (new_node shp) iid = Some on1 -> open_legs_to_children on1 (sp_out_children o i on1 iid) = Some on2 ->
+  parent on2 = Some iid /\ children on2 = ls_children o /\ perm on2 = M :: seq 0 M /\ shape on2 = shp /\
+  length (ls_children o) <= M.
+Proof.
+  intros HL Ha Hr Hp. unfold sp_out1, sp_out_children. rewrite Ha, Hr, Hp. intros H1 H.
+  destruct (sp_oltp_new _ _ _ _ H1) as (_ & q & Hm & ->).
+  unfold nlegs in Hm. cbn [perm new_node] in Hm. rewrite seq_length, HL in Hm. cbn [Nat.sub] in Hm. rewrite Nat.sub_0_r in Hm.
+  rewrite sp_move_last in Hm. injection Hm as <-.
+  assert (Hwf : node_wf {| parent := Some iid; children := []; perm := M :: seq 0 M; shape := shp |}).
+  { apply sp_new_node_wf_with; [|lia]. rewrite HL, sp_seq_snoc. apply Permutation_cons_append. }
+  destruct (sp_olc_next _ _ _ Hwf H) as (S1 & S2 & S3 & S4 & S5).
+  - cbn. rewrite enum_from_snd, enum_from_length. reflexivity.
+  - cbn in S3. rewrite enum_from_fst in S3. rewrite app_length, enum_from_length in S5.
+    unfold nlegs, nvirt, nparents in S5. cbn in S5. rewrite seq_length in S5. repeat split; auto. lia.
+Qed.
+
+(* out is the root *)
+Lemma sp_out_node_root o i shp iid on1 on2 M :
+  length shp = S M -> sp_in_above i = false -> ls_root o = true -> ls_parent o = None -> length (ls_children o) <= M ->
+  sp_out1 o (new_node shp) iid = Some on1 -> open_legs_to_children on1 (sp_out_children o i on1 iid) = Some on2 ->
+  parent on2 = None /\ children on2 = iid :: ls_children o /\ perm on2 = M :: seq 0 M /\ shape on2 = shp.
+Proof.
+  intros HL Ha Hr Hp Hk. unfold sp_out1, sp_out_children. rewrite Ha, Hr, Hp. intros [= <-] H.
+  destruct (sp_olc_last _ _ _ M (length (ls_children o)) (new_node_wf shp) H) as (S1 & S2 & S3 & S4).
+  - cbn. rewrite HL. reflexivity.
+  - cbn. rewrite enum_from_snd. unfold nlegs. cbn. rewrite seq_length, HL. cbn. rewrite Nat.sub_0_r. reflexivity.
+  - cbn. exact Hk.
+  - cbn in S3, S4. rewrite enum_from_fst in S3. rewrite Nat.sub_0_r in S4. repeat split; auto.
+Qed.
+
+(* out has the old parent *)
+Lemma sp_out_node_parent o i op shp iid on1 on2 M :
+  length shp = S M -> sp_in_above i = false -> ls_root o = false -> ls_parent o = Some op -> 1 + length (ls_children o) <= M ->
+  sp_out1 o (new_node shp) iid = Some on1 -> open_legs_to_children on1 (sp_out_children o i on1 iid) = Some on2 ->
+  parent on2 = Some op /\ children on2 = iid :: ls_children o /\ perm on2 = 0 :: M :: seq 1 (M - 1) /\ shape on2 = shp.
+Proof.
+  intros HL Ha Hr Hp Hk. unfold sp_out1, sp_out_children. rewrite Ha, Hr, Hp. intros H1 H.
+  destruct (sp_oltp_new _ _ _ _ H1) as (_ & q & Hm & ->). rewrite sp_move_0 in Hm by lia. injection Hm as <-.
+  assert (Hwf : node_wf {| parent := Some op; children := []; perm := seq 0 (length shp); shape := shp |}).
+  { apply sp_new_node_wf_with; [reflexivity|lia]. }
+  destruct (sp_olc_last _ _ _ M (length (ls_children o)) Hwf H) as (S1 & S2 & S3 & S4).
+  - cbn. rewrite HL. reflexivity.
+  - cbn. rewrite enum_from_snd. unfold nlegs. cbn. rewrite seq_length, HL. cbn. rewrite Nat.sub_0_r. reflexivity.
+  - cbn. exact Hk.
+  - cbn in S3, S4. rewrite enum_from_fst in S3. repeat split; auto.
+Qed.
+
+(* --- logical axes of the final nodes ---------------------------------------------------------------------- *)
+Lemma sp_laxes_id n t : perm n = seq 0 (length (axes t)) -> laxes n t = axes t.
+Proof. intros E. unfold laxes. rewrite E. apply permute_seq. Qed.
+
+Lemma sp_permute_last_first (ow : list wire) b :
+  permute 0 (length ow :: seq 0 (length ow)) (ow ++ [b]) = b :: ow.
+Proof. rewrite sp_permute_cons. rewrite sp_nth_app_len. f_equal. apply sp_permute_seq_prefix. Qed.
+
+Lemma sp_permute_swap01 (b w : wire) rest :
+  permute 0 (1 :: 0 :: seq 2 (length rest)) (b :: w :: rest) = w :: b :: rest.
+Proof. rewrite !sp_permute_cons. cbn [nth]. rewrite !sp_permute_seq_shift. rewrite permute_seq. reflexivity. Qed.
+
+Lemma sp_permute_0_last (w b : wire) rest :
+  permute 0 (0 :: S (length rest) :: seq 1 (length rest)) ((w :: rest) ++ [b]) = w :: b :: rest.
+Proof.
+  rewrite !sp_permute_cons. cbn [nth app]. rewrite sp_nth_app_len. rewrite sp_permute_seq_shift.
+  rewrite sp_permute_seq_prefix. reflexivity.
+Qed.
+
+(* ---- renaming in the neighbours ---------------------------------------------------------------------------- *)
+Definition sp_risn_step (new old : id) (acc : option (list (id * node))) (x : id) : option (list (id * node)) :=
+  match acc with
+  | None => None
+  | Some l' => match aget x l' with
+               | Some xn => match replace_neighbour xn old new with
+                            | Some xn' => Some (aset x xn' l')
+                            | None => None
+                            end
+               | None => None
+               end
+  end.
+
+Lemma sp_risn_fold l new old ns :
+  replace_in_some_neighbours l new old ns = fold_left (sp_risn_step new old) ns (Some l).
+Proof. reflexivity. Qed.
+
+Lemma sp_risn_none new old ns : fold_left (sp_risn_step new old) ns None = None.
+Proof. induction ns as [|x t IH]; [reflexivity|exact IH]. Qed.
+
+Lemma sp_risn_spec new old : forall ns l l',
+  replace_in_some_neighbours l new old ns = Some l' -> NoDup ns ->
+  akeys l' = akeys l /\
+  (forall k, ~ In k ns -> aget k l' = aget k l) /\
+  (forall k, In k ns -> exists xn xn', aget k l = Some xn /\ replace_neighbour xn old new = Some xn' /\ aget k l' = Some xn').
+Proof.
+  induction ns as [|x t IH]; intros l l' H Hnd.
+  - cbn in H. injection H as <-. repeat split; auto. intros k [].
+  - rewrite sp_risn_fold in H. cbn [fold_left] in H. inversion Hnd as [|? ? Hni Hnd']; subst.
+    unfold sp_risn_step at 2 in H.
+    destruct (aget x l) as [xn|] eqn:Ex; [|rewrite sp_risn_none in H; discriminate].
+    destruct (replace_neighbour xn old new) as [xn'|] eqn:Er; [|rewrite sp_risn_none in H; discriminate].
+    rewrite <- sp_risn_fold in H. destruct (IH _ _ H Hnd') as (I1 & I2 & I3).
+    split; [|split].
+    + rewrite I1. eapply akeys_aset_mem; eauto.
+    + intros k Hk. rewrite I2 by (intros Hin; apply Hk; right; exact Hin).
+      apply aget_aset_other. intros ->. apply Hk. left. reflexivity.
+    + intros k [<-|Hk].
+      * exists xn, xn'. repeat split; auto. rewrite I2 by exact Hni. apply aget_aset_same.
+      * destruct (I3 k Hk) as (yn & yn' & E1 & E2 & E3). exists yn, yn'. repeat split; auto.
+        rewrite aget_aset_other in E1; [exact E1|]. intros ->. contradiction.
+Qed.
+
+Lemma sp_replace_neighbour_child xn old new xn' :
+  parent xn = Some old -> replace_neighbour xn old new = Some xn' ->
+  parent xn' = Some new /\ children xn' = children xn /\ perm xn' = perm xn /\ shape xn' = shape xn.
+Proof.
+  unfold replace_neighbour. intros ->. rewrite Nat.eqb_refl. intros [= <-]. cbn. auto.
+Qed.
+
+Lemma sp_replace_neighbour_parent xn old new xn' :
+  parent xn <> Some old -> replace_neighbour xn old new = Some xn' ->
+  parent xn' = parent xn /\ children xn' = replace_first old new (children xn) /\ perm xn' = perm xn /\ shape xn' = shape xn.
+Proof.
+  unfold replace_neighbour. intros Hp. destruct (parent xn) as [p|] eqn:Ep.
+  - destruct (Nat.eqb_spec p old) as [->|Hne]; [congruence|].
+    destruct (memb old (children xn)); [|discriminate]. intros [= <-]. cbn. auto.
+  - destruct (memb old (children xn)); [|discriminate]. intros [= <-]. cbn. auto.
+Qed.
+
+(* ---- facts about the leg lists ------------------------------------------------------------------------------ *)
+Definition sp_pl (sp : legspec) : list nat := match ls_parent sp with Some _ => [0] | None => [] end.
+
+Lemma sp_flv_inv nd sp l : find_leg_values nd sp = Some l ->
+  exists cl, map (neighbour_index nd) (ls_children sp) = map Some cl /\ l = sp_pl sp ++ cl ++ ls_open sp /\
+             length cl = length (ls_children sp).
+Proof.
+  unfold find_leg_values. destruct (all_some (map (neighbour_index nd) (ls_children sp))) as [cl|] eqn:E; [|discriminate].
+  intros [= <-]. apply sp_all_some_map in E. exists cl. repeat split; auto.
+  apply (f_equal (@length _)) in E. rewrite !map_length in E. symmetry. exact E.
+Qed.
+
+Lemma sp_map_Some_nth {A B} (f : A -> option B) (l : list A) (r : list B) j dA dB :
+  map f l = map Some r -> j < length l -> f (nth j l dA) = Some (nth j r dB).
+Proof.
+  revert r j. induction l as [|x t IH]; intros [|y r] j E Hj; cbn in *; try lia; try discriminate.
+  injection E as E1 E2. destruct j as [|j]; [exact E1|]. apply IH; [exact E2|lia].
+Qed.
+
+Lemma sp_map_Some_In {A B} (f : A -> option B) (l : list A) (r : list B) y :
+  map f l = map Some r -> In y r -> exists x, In x l /\ f x = Some y.
+Proof.
+  revert r. induction l as [|x t IH]; intros [|z r] E Hy; cbn in *; try contradiction; try discriminate.
+  injection E as E1 E2. destruct Hy as [->|Hy]; [exists x; auto|]. destruct (IH r E2 Hy) as (x' & H1 & H2). exists x'. auto.
+Qed.
+
+Lemma sp_map_Some_In' {A B} (f : A -> option B) (l : list A) (r : list B) x :
+  map f l = map Some r -> In x l -> exists y, In y r /\ f x = Some y.
+Proof.
+  revert r. induction l as [|x' t IH]; intros [|z r] E Hx; cbn in *; try contradiction; try discriminate.
+  injection E as E1 E2. destruct Hx as [->|Hx]; [exists z; auto|]. destruct (IH r E2 Hx) as (y & H1 & H2). exists y. auto.
 Qed.
